@@ -135,7 +135,11 @@ TailIgnoredList(str) == LET t == Parse(TruncatedString(str)) IN IF t.kind = "ok"
 
 V_PathParse(e) ==            \* e.inp = str; e.res.v = [list, str, private]
   LET p == Parse(e.inp)
-  IN IF p.kind = "either" THEN "ok"
+  IN IF p.kind = "either"
+     THEN \* decorated numerals / trailing '/': an error, or the evident list (first five levels for deep paths)
+          IF p.why # "lenient-evident" \/ Raised(e) \/ ~InRange(e.res.v.list) THEN "ok"
+          ELSE IF e.res.v.list = p.list \/ (Len(p.list) > 5 /\ e.res.v.list = IgnoreTail(p.list)) THEN "ok"
+          ELSE "parse-decorated-numeral-read-as-other-value"
      ELSE IF p.kind = "ok" /\ Len(p.list) <= 5
           THEN IF Raised(e) THEN "parse-raised-on-valid"
                ELSE IF e.res.v.list # p.list THEN "parse-list"
@@ -154,7 +158,10 @@ V_PathParse(e) ==            \* e.inp = str; e.res.v = [list, str, private]
 
 V_ByPath(e) ==               \* e.inp = [path, wallet]; e.res.v = [node, repr]
   LET p == Parse(e.inp.path)
-  IN IF p.kind = "either" THEN "ok"
+  IN IF p.kind = "either"
+     THEN IF p.why # "lenient-evident" \/ Raised(e) THEN "ok"
+          ELSE IF HasFold(e, p.list) /\ e.res.v.node = FoldOf(e, p.list) THEN "ok"
+          ELSE "bypath-decorated-numeral-derived-other-key"
      ELSE IF p.kind = "ok" /\ Len(p.list) <= 5
           THEN IF Raised(e) THEN "bypath-raised-on-valid"
                ELSE IF e.res.v.node # FoldOf(e, p.list) THEN "bypath-not-fold-of-ckd"
